@@ -113,6 +113,7 @@ type Sim struct {
 	steps     int
 	capHit    string
 	deferred  int
+	sp        bool
 
 	// clients
 	bases    []*mqtt.BaseClient // all BaseClients created (index = conn-1)
@@ -129,6 +130,7 @@ type Sim struct {
 	ka *kaState
 	stalled []*dialReq
 	mux     mqtt.Handler
+	manualConnects int
 }
 
 type opState struct {
@@ -139,6 +141,7 @@ type opState struct {
 	started   bool
 	returned  bool
 	deferred  int
+	sp        bool
 	err       error
 }
 
